@@ -6,23 +6,25 @@ from beziers.boundingbox import BoundingBox
 
 ID = "C02"
 TOPICS = ["Roots", "Box", "Eval"]
-LEAN_TARGETS = ["BezierVerif.Props.Roots", "BezierVerif.Props.C02"]
+LEAN_TARGETS = ["BezierVerif.Props.Roots", "BezierVerif.Props.C02", "BezierVerif.Props.C03", "BezierVerif.Props.C02E"]
 TV_DEFS = ["quadraticRoots", "cubic_dcoeffs", "quad_findDRoots", "bbox_extend_point", "bbox_extend_first"]
 RULE = ("segments of the three kinds from the Appendix-B families (explicitly: symmetric arches and degree-elevated curves whose derivative "
         "loses its leading term); every box is tested against the exact curve at 401 rational parameters plus the exact critical points; "
         "paths of 1..6 segments; non-trivial = polygon with >= 2 distinct points; distinct = distinct polygons")
-UNPROVED = ["enclosure for every t in [0,1] (analytic step: a differentiable function on [0,1] is bounded by its values at the ends and at interior "
-            "critical points; the core lemma exists in notes/ but is not yet glued to quadraticRoots_mem_iff) — sampled at 401 exact parameters + all critical points",
-            "the 0.06 % protrusion bound for extremes in the first/last 1 % — sampled",
-            "float residuals of the root formulas — sampled (1e-9 relative)"]
+UNPROVED = ["float residuals of the root formulas and of the evaluation (theorems are over the reals; sampled at 1e-9 relative with exact-rational references)",
+            "the enclosure / protrusion theorems speak about the hand model Model/Extremes.lean of findExtremes/bounds over the regenerated leaves; its agreement with the code is the per-run correspondence"]
 ASSUMPTIONS = ["math.sqrt is the real square root", "the hand model Model/Extremes.lean mirrors findExtremes/bounds (correspondence per run)"]
-LEVEL_TEXT = ("theorems: quadraticRoots_mem_iff (the regenerated solver returns exactly the simple roots in [0,1], including the linear fall-back), "
+LEVEL_TEXT = ("theorems: C02E.enclosure (for EVERY segment and EVERY t in [0,1] the point lies in the reported box enlarged by 6/10000 of the control polygon's extent), "
+              "C02E.enclosure_exact (no allowance at all when no simple root of x' or y' lies strictly inside the first or last 1 %), built from le_end_or_simple (a function whose "
+              "derivative is a quadratic is bounded by its values at 0, 1 and the interior SIMPLE roots: compactness + Fermat; a double root or a vanishing derivative means monotone), "
+              "C01's HasDerivAt theorems, band_mem (every simple root in [0.01,0.99] is reported: cubic_extremes_mem_iff / quad_findDRoots_mem on the regenerated code), "
+              "cubic_protrusion_lo/hi and quad_protrusion_lo/hi (f(e) - f(0) = -e^2((3-2e)D2P0 + 2e D2P1) when f'(e)=0, hence <= 6e^2 E: the property's 0.06 % is proved, not fitted); "
+              "quadraticRoots_mem_iff (the regenerated solver returns exactly the simple roots in [0,1], including the linear fall-back), "
               "droots_coeffs (the solver is fed the derivative's coefficients), extend = min/max accumulation, bounds_is_hull (the box is the tight hull of the "
-              "points at 0, 1 and every reported extreme: contains them, each side attained), path_bounds_smallest (least box containing the segment boxes). "
-              "partial: enclosure of all t and the 0.06 % band are sampled")
+              "points at 0, 1 and every reported extreme: contains them, each side attained — tightness), path_bounds_smallest (least box containing the segment boxes)")
 LEVEL_NOTE = ("trusted: Lean kernel + Mathlib, axioms {propext, Classical.choice, Quot.sound}, translator (validated per run), hand model of the list glue "
-              "(correspondence per run); enclosure for all t is NOT yet a theorem")
-TECHNIQUE = "symbolic tracing to Lean; case analysis on the solver's decision tree + field algebra; list induction for the hull; exact-rational sampling oracle"
+              "(correspondence per run)")
+TECHNIQUE = "symbolic tracing to Lean; case analysis on the solver's decision tree + field algebra; real analysis (extreme value theorem, Fermat, monotonicity from the derivative's sign) for enclosure; list induction for the hull; exact-rational sampling oracle"
 
 
 def close(a, b, scale, rel=1e-9):
